@@ -1,4 +1,5 @@
 import XmpProofs.Container
+import XmpModel.ArcFrame
 /-!
 Byte-level framing of ARC / Spark archives (`arc_read` of src/depackers/arc.c as modelled by
 `Xmp.Container.arcRead`) and correctness of the concrete RLE90 encoder `rle90Enc`.
@@ -391,6 +392,109 @@ theorem arcRead_wrap_rle90Enc (crc : Bytes → UInt16) (dec : Nat → Bytes → 
   arcRead_wrap crc dec pre post { m with toks := rle90Enc m.data } spark hpre hm hx hlim
 
 
+/-! ## headers with explicit field values (directory entries) -/
+
+structure ArcHdrOk (m : ArcMember) (cs kv us : Nat) : Prop where
+  nameLen : m.name.length ≤ 12
+  nameNul : noNul m.name
+  methHi : m.method < 256
+  meth : m.method % 128 ≠ 0 ∧ m.method ≠ 31
+  clen : cs < 2 ^ 32
+  kvlt : kv < 65536
+  dlen : us < 2 ^ 32
+  attrs : m.attrs.length = 12
+
+theorem arcHdrTailG_length (m : ArcMember) (cs kv us : Nat) (hm : ArcHdrOk m cs kv us) :
+    (arcHdrTailG m cs kv us).length = arcHeaderLength m.method - 2 ∧ 2 < arcHeaderLength m.method := by
+  have h1 := hm.nameLen
+  have h2 := hm.attrs
+  have hmeth := hm.meth
+  unfold arcHdrTailG arcHeaderLength
+  simp only [arcEndOfArchive, arc6EndOfDir, arcUnpackedOld, arcHeaderSize, sparkHeaderExtra, List.length_append,
+    List.length_replicate, le32_length, le16_length]
+  have hne : ¬ (m.method % 128 = 0 ∨ m.method = 31) := by omega
+  simp only [hne, if_false]
+  by_cases ho : m.method % 128 = 1 <;> by_cases hs : m.method ≥ 128 <;> simp [ho, hs, h2, le32_length] <;> omega
+
+theorem arcReadEntry_hdr (m : ArcMember) (cs kv us : Nat) (hm : ArcHdrOk m cs kv us) (rest : Bytes) :
+    arcReadEntry (arcHdrG m cs kv us ++ rest) =
+      some ({ method := m.method, filename := m.name, csize := cs, crc := kv,
+              usize := if arcIsPacked m.method = true then us else cs,
+              loadAddr := if m.method ≥ 128 then u32At m.attrs 0 else 0 },
+            rest) := by
+  obtain ⟨hlen, hgt⟩ := arcHdrTailG_length m cs kv us hm
+  have hmb : (UInt8.ofNat m.method).toNat = m.method := by
+    rw [UInt8.toNat_ofNat']; have := hm.methHi; omega
+  unfold arcHdrG
+  simp only [List.cons_append, List.append_assoc, arcReadEntry, hmb, ne_eq, not_true_eq_false, if_false]
+  have hle : ¬ arcHeaderLength m.method ≤ 2 := by omega
+  have hnl : ¬ (arcHdrTailG m cs kv us ++ rest).length < arcHeaderLength m.method - 2 := by
+    simp only [List.length_append]; omega
+  simp only [hle, hnl, if_false]
+  rw [List.take_left' hlen, List.drop_left' hlen]
+  -- the header buffer
+  have hN : (m.name ++ List.replicate (13 - m.name.length) (0 : UInt8)).length = 13 := by
+    have := hm.nameLen; simp; omega
+  have hcs : u32At (0x1a :: UInt8.ofNat m.method :: arcHdrTailG m cs kv us) 15 = cs := by
+    have : (0x1a :: UInt8.ofNat m.method :: arcHdrTailG m cs kv us) =
+        ([0x1a, UInt8.ofNat m.method] ++ (m.name ++ List.replicate (13 - m.name.length) 0)) ++
+        (le32 cs ++ (le16 m.date ++ (le16 m.time ++
+          (le16 kv ++ ((if m.method % 128 = arcUnpackedOld then [] else le32 us) ++
+          (if m.method ≥ 128 then m.attrs else [])))))) := by
+      simp [arcHdrTailG, List.append_assoc]
+    rw [this]
+    exact u32At_at _ _ _ 15 (by simp only [List.length_append, hN]; rfl) hm.clen
+  have hcrc : u16At (0x1a :: UInt8.ofNat m.method :: arcHdrTailG m cs kv us) 23 = kv := by
+    have : (0x1a :: UInt8.ofNat m.method :: arcHdrTailG m cs kv us) =
+        ([0x1a, UInt8.ofNat m.method] ++ (m.name ++ List.replicate (13 - m.name.length) 0) ++
+          le32 cs ++ le16 m.date ++ le16 m.time) ++
+        (le16 kv ++ ((if m.method % 128 = arcUnpackedOld then [] else le32 us) ++
+          (if m.method ≥ 128 then m.attrs else []))) := by
+      simp [arcHdrTailG, List.append_assoc]
+    rw [this]
+    exact u16At_at _ _ _ 23 (by simp only [List.length_append, hN, le32_length, le16_length]; rfl)
+      hm.kvlt
+  have hname : cstr (((0x1a : UInt8) :: UInt8.ofNat m.method :: arcHdrTailG m cs kv us).drop 2 |>.take 12) = m.name := by
+    simp only [List.drop_succ_cons, List.drop_zero, arcHdrTailG]
+    rw [List.take_append_of_le_length (by rw [hN]; omega)]
+    exact cstr_take m.name hm.nameNul hm.nameLen
+  have hus : (if arcIsPacked m.method = true then u32At (0x1a :: UInt8.ofNat m.method :: arcHdrTailG m cs kv us) 25
+      else cs) = (if arcIsPacked m.method = true then us else cs) := by
+    by_cases hp : arcIsPacked m.method = true
+    · rw [if_pos hp, if_pos hp]
+      have h1 : ¬ m.method % 128 = arcUnpackedOld := by
+        intro h; rw [arcIsPacked, h] at hp; simp at hp
+      have : (0x1a :: UInt8.ofNat m.method :: arcHdrTailG m cs kv us) =
+          ([0x1a, UInt8.ofNat m.method] ++ (m.name ++ List.replicate (13 - m.name.length) 0) ++
+            le32 cs ++ le16 m.date ++ le16 m.time ++ le16 kv) ++
+          (le32 us ++ (if m.method ≥ 128 then m.attrs else [])) := by
+        simp [arcHdrTailG, List.append_assoc, h1]
+      rw [this]
+      exact u32At_at _ _ _ 25 (by simp only [List.length_append, hN, le32_length, le16_length]; rfl) hm.dlen
+    · rw [if_neg hp, if_neg hp]
+  have hla : (if m.method ≥ 128 then
+        u32At (0x1a :: UInt8.ofNat m.method :: arcHdrTailG m cs kv us) (arcHeaderLength m.method - sparkHeaderExtra)
+      else 0) = (if m.method ≥ 128 then u32At m.attrs 0 else 0) := by
+    by_cases hs : m.method ≥ 128
+    · simp only [hs, if_true]
+      have : (0x1a :: UInt8.ofNat m.method :: arcHdrTailG m cs kv us) =
+          ([0x1a, UInt8.ofNat m.method] ++ (m.name ++ List.replicate (13 - m.name.length) 0) ++
+            le32 cs ++ le16 m.date ++ le16 m.time ++ le16 kv ++
+            (if m.method % 128 = arcUnpackedOld then [] else le32 us)) ++ m.attrs := by
+        simp [arcHdrTailG, List.append_assoc, hs]
+      rw [this, u32At_drop, List.drop_left']
+      have hmeth := hm.meth
+      unfold arcHeaderLength
+      simp only [arcEndOfArchive, arc6EndOfDir, arcUnpackedOld, arcHeaderSize, sparkHeaderExtra, List.length_append,
+        hN, le32_length, le16_length]
+      have hne : ¬ (m.method % 128 = 0 ∨ m.method = 31) := by omega
+      simp only [hne, if_false, hs, if_true]
+      by_cases ho : m.method % 128 = 1 <;> simp [ho, le32_length]
+    · simp only [hs, if_false]
+  simp only [hcs, hcrc, hname, hus, hla]
+
+
+
 /-! ## the signature test on a written archive -/
 
 def printable (name : Bytes) : Prop := ∀ x ∈ name, 32 ≤ x.toNat ∧ x.toNat ≠ 0x7f
@@ -508,5 +612,104 @@ theorem arcWrap_length (crc : Bytes → UInt16) (m0 : ArcMember) (rest : List Ar
   rw [List.flatMap_cons, arcEntryBytes_eq]
   simp only [List.length_take, List.length_append, List.length_cons, sniffSize, minHeaderSize]
   omega
+
+
+/-! ## sub-directories: the walker's directory level -/
+
+def ArcItem.Ok (crc : Bytes → UInt16) : ArcItem → Prop
+  | .file m => m.Legal ∧ excludeMatch m.name = true
+  | .dopen h cs kv => ArcHdrOk h cs kv cs ∧ (h.method = 30 ∨ (h.method = 130 ∧ u32At h.attrs 0 / 256 = 0xfffddc))
+  | .dclose k => k.toNat % 128 = 0 ∨ k.toNat = 31
+
+theorem arcReadEntry_close (k : UInt8) (hk : k.toNat % 128 = 0 ∨ k.toNat = 31) (rest : Bytes) :
+    arcReadEntry (([0x1a, k] : Bytes) ++ rest) = some ({ method := k.toNat }, rest) := by
+  have hl : arcHeaderLength k.toNat ≤ 2 := by
+    have hk' : k.toNat % 128 = arcEndOfArchive ∨ k.toNat = arc6EndOfDir := by
+      simpa [arcEndOfArchive, arc6EndOfDir] using hk
+    unfold arcHeaderLength
+    rw [if_pos hk']; exact Nat.le_refl _
+  simp [arcReadEntry, hl]
+
+/-- the walk over skipped files, directory headers and closing markers only changes the directory level -/
+theorem arcReadFuel_items (crc : Bytes → UInt16) (dec : Nat → Bytes → Nat → Option Bytes) (fileLen : Nat)
+    (pre : List ArcItem) : ∀ (T : Bytes) (fuel level level' : Nat),
+    (∀ x ∈ pre, x.Ok crc) → arcLevel level pre = some level' →
+    arcReadFuel crc dec fileLen (fuel + pre.length) (arcItemsBytes crc pre ++ T) level =
+      arcReadFuel crc dec fileLen fuel T level' := by
+  induction pre with
+  | nil => intro T fuel level level' _ h; simp [arcLevel] at h; subst h; simp [arcItemsBytes]
+  | cons x pre ih =>
+    intro T fuel level level' hok hlev
+    have hx := hok x (by simp)
+    have hrest : ∀ y ∈ pre, y.Ok crc := fun y hy => hok y (by simp [hy])
+    have hfu : fuel + (x :: pre).length = (fuel + pre.length) + 1 := by simp; omega
+    rw [hfu]
+    simp only [arcItemsBytes, List.flatMap_cons, List.append_assoc]
+    cases x with
+    | file m =>
+      have := arcReadFuel_skip crc dec fileLen [m] (arcItemsBytes crc pre ++ T) (fuel + pre.length) level
+        (by intro y hy; simp at hy; subst hy; exact hx)
+      simp only [List.flatMap_cons, List.flatMap_nil, List.append_nil, List.length_cons, List.length_nil] at this
+      simp only [arcItemBytes, arcItemsBytes] at this ⊢
+      rw [this]
+      exact ih T fuel level level' hrest (by simpa [arcLevel] using hlev)
+    | dopen h cs kv =>
+      obtain ⟨hh, hdir⟩ := hx
+      simp only [arcItemBytes]
+      rw [arcReadFuel, arcReadEntry_hdr h cs kv cs hh]
+      have hne : ¬ (h.method % 128 = arcEndOfArchive ∨ h.method = arc6EndOfDir) := by
+        have := hh.meth; simp only [arcEndOfArchive, arc6EndOfDir]; omega
+      have hd : arcIsDirectory (ArcEntry.mk h.method h.name cs kv (if arcIsPacked h.method = true then cs else cs)
+          (if h.method ≥ 128 then u32At h.attrs 0 else 0)) = true := by
+        unfold arcIsDirectory
+        rcases hdir with h30 | ⟨h130, hla⟩
+        · simp [h30, arc6Dir]
+        · simp [h130, arcUnpacked, arc6Dir, hla]
+      simp only [hne, if_false, hd, if_true]
+      exact ih T fuel (level + 1) level' hrest (by simpa [arcLevel] using hlev)
+    | dclose k =>
+      simp only [arcItemBytes]
+      rw [arcReadFuel, arcReadEntry_close k hx]
+      have hx' : k.toNat % 128 = 0 ∨ k.toNat = 31 := hx
+      have he : (k.toNat % 128 = arcEndOfArchive ∨ k.toNat = arc6EndOfDir) := by
+        simpa [arcEndOfArchive, arc6EndOfDir] using hx'
+      simp only [arcLevel] at hlev
+      by_cases hl0 : level = 0
+      · simp [hl0] at hlev
+      · simp only [hl0, if_false] at hlev
+        simp only [he, if_true, show level > 0 from Nat.pos_of_ne_zero hl0]
+        exact ih T fuel (level - 1) level' hrest hlev
+
+theorem arcItemBytes_pos (crc : Bytes → UInt16) (x : ArcItem) : 0 < (arcItemBytes crc x).length := by
+  cases x with
+  | file m => exact arcEntryBytes_length_pos crc m
+  | dopen h cs kv => simp [arcItemBytes, arcHdrG]
+  | dclose k => simp [arcItemBytes]
+
+/-- **ARC / Spark framing with sub-directories**: whatever excluded files, directory headers (Spark or ARC 6) and
+    closing markers precede it — at any nesting depth, inside an open directory or after closed ones — the first
+    other member is reached and returned, provided no marker closes a directory that is not open -/
+theorem arcRead_items (crc : Bytes → UInt16) (dec : Nat → Bytes → Nat → Option Bytes) (pre : List ArcItem)
+    (post : Bytes) (m : ArcMember) (level' : Nat)
+    (hpre : ∀ x ∈ pre, x.Ok crc) (hlev : arcLevel 0 pre = some level')
+    (hm : m.Legal) (hx : excludeMatch m.name = false) (hlim : m.data.length ≤ depackLimit) :
+    arcRead crc dec (arcItemsBytes crc pre ++ (arcEntryBytes crc m ++ post)) = some m.data := by
+  unfold arcRead
+  have hge : pre.length ≤ (arcItemsBytes crc pre).length := by
+    clear hlev
+    induction pre with
+    | nil => simp [arcItemsBytes]
+    | cons x pre ih =>
+      have := arcItemBytes_pos crc x
+      have := ih (fun y hy => hpre y (by simp [hy]))
+      simp only [arcItemsBytes, List.flatMap_cons, List.length_append, List.length_cons] at *
+      omega
+  have hcl : m.cdata.length ≤ (arcEntryBytes crc m).length := by
+    rw [arcEntryBytes_eq]; simp; omega
+  obtain ⟨k, hk⟩ : ∃ k, (arcItemsBytes crc pre ++ (arcEntryBytes crc m ++ post)).length + 1 = (k + 1) + pre.length :=
+    ⟨(arcItemsBytes crc pre ++ (arcEntryBytes crc m ++ post)).length - pre.length, by
+      simp only [List.length_append]; omega⟩
+  rw [hk, arcReadFuel_items crc dec _ pre _ (k + 1) 0 level' hpre hlev]
+  exact arcReadFuel_hit crc dec _ k m hm hx hlim (by simp only [List.length_append]; omega) post level'
 
 end Xmp.Container
